@@ -25,6 +25,7 @@
 #include <stdlib.h>
 #include <string.h>
 #include <sys/mman.h>
+#include <sys/time.h>
 #include <unistd.h>
 
 #ifdef VERIF_UNITY
@@ -640,6 +641,14 @@ static edn_result_t do_read(const char* in, size_t n, int opt) {
 }
 
 static sigjmp_buf alarm_jmp;
+/* CPU-time alarm (ITIMER_PROF: user + system time of this process), so that a busy machine
+ * cannot turn a slow read into a "timeout" */
+static void cpu_alarm(int seconds) {
+    struct itimerval it;
+    memset(&it, 0, sizeof(it));
+    it.it_value.tv_sec = seconds;
+    setitimer(ITIMER_PROF, &it, NULL);
+}
 static void on_alarm(int s) {
     (void) s;
     siglongjmp(alarm_jmp, 1);
@@ -663,9 +672,9 @@ static void cmd_read(char* args, int print_msg) {
         free(b);
         return;
     }
-    alarm(10);
+    cpu_alarm(10);
     edn_result_t r = do_read(p.ptr, n, opt);
-    alarm(0);
+    cpu_alarm(0);
     print_result(stdout, r, (opt & 8) != 0);
     if (print_msg && r.error_message)
         printf(" text=\"%s\"", r.error_message);
@@ -942,9 +951,9 @@ static void cmd_num(char* args) {
         if (sigsetjmp(alarm_jmp, 1)) {
             printf("timeout\n");
         } else {
-            alarm(2);
+            cpu_alarm(2);
             int64_t g = ratio_gcd((int64_t) a, (int64_t) bb);
-            alarm(0);
+            cpu_alarm(0);
             printf("%lld\n", (long long) g);
         }
     }
@@ -1440,6 +1449,7 @@ int main(int argc, char** argv) {
     (void) argc;
     (void) argv;
     signal(SIGALRM, on_alarm);
+    signal(SIGPROF, on_alarm);
     memset(&eof_sentinel, 0, sizeof(eof_sentinel));
     eof_sentinel.type = EDN_TYPE_KEYWORD;
     eof_sentinel.arena = NULL;
